@@ -244,6 +244,25 @@ class Ctx:
             shutil.rmtree(os.path.join(work, "meta"), ignore_errors=True)
         return r
 
+    def apalache_inductive(self, module, inv="IndInv", cinit="CInit", init="Init", timeout=600):
+        """Apalache (symbolic): `inv` holds initially and is preserved by every step from ANY state satisfying it - an
+        inductive invariant, i.e. safety for executions of every length.  Raises Infra when the tool fails or refutes it
+        (a specification bug, like tlc_model)."""
+        work = tempfile.mkdtemp(prefix="apa-", dir=self.tmp)
+        shutil.copy(os.path.join(SPEC, module + ".tla"), work)
+        t0 = time.time()
+        for step, args in (("initiation", ["--init=" + init, "--length=0"]), ("consecution", ["--init=" + inv, "--length=1"])):
+            cmd = ["apalache-mc", "check", "--cinit=" + cinit, "--inv=" + inv] + args + ["--out-dir=" + os.path.join(work, "out"), module + ".tla"]
+            try:
+                p = subprocess.run(cmd, cwd=work, stdout=subprocess.PIPE, stderr=subprocess.STDOUT, universal_newlines=True, timeout=timeout,
+                                   env=dict(os.environ, JVM_ARGS="-Xmx4g -Djava.io.tmpdir=" + work))
+            except subprocess.TimeoutExpired:
+                raise Infra("apalache timed out on %s (%s)" % (module, step))
+            if "The outcome is: NoError" not in p.stdout:
+                raise Infra("apalache: %s of %s in %s not established:\n%s" % (step, inv, module, p.stdout[-1500:]))
+        self.tlc_runs.append({"module": module, "cfg": "apalache --inv=%s (inductive: initiation + consecution)" % inv, "status": "ok",
+                              "generated": 0, "distinct": 0, "depth": 1, "wall_s": round(time.time() - t0, 2), "mode": "apalache-inductive"})
+
     def tlc_model(self, module, cfg=None, **kw):
         """A model-level run whose result must be 'ok'; its state counts go into evidence."""
         r = self.tlc(module, cfg, **kw)
